@@ -759,7 +759,9 @@ fn update_contiguous_length(
     let end = bitfield_update.start + bitfield_update.length;
     let mut c = header.hints.contiguous_length;
     if bitfield_update.drop {
-        if c <= end && c > bitfield_update.start {
+        // Dropping any block below the hint lowers it, also when the dropped range ends
+        // before the hint (the live path in `clear` does the same).
+        if c > bitfield_update.start {
             c = bitfield_update.start;
         }
     } else if c <= end && c >= bitfield_update.start {
